@@ -3,28 +3,71 @@ hex-grid walk tables of segmented.py.  (helper.slice_offset is already generated
 import ast, os
 from py2lean import Refuse, V, S
 
+
+def _canon(nodes, extra_locals=()):
+    """ast.dump of a statement list with local variable names replaced by v0, v1, … in order of first appearance (names that are
+    stored to, loop variables and `extra_locals`); formatting, comments and the choice of local names do not matter"""
+    if not isinstance(nodes, list): nodes = [nodes]
+    import copy
+    nodes = copy.deepcopy(nodes)
+    local = set(extra_locals)
+    for n in nodes:
+        for x in ast.walk(n):
+            if isinstance(x, ast.Name) and isinstance(x.ctx, ast.Store): local.add(x.id)
+    ren = {}
+    class R(ast.NodeTransformer):
+        def visit_Name(self, x):
+            if x.id in local:
+                if x.id not in ren: ren[x.id] = f'v{len(ren)}'
+                return ast.copy_location(ast.Name(id=ren[x.id], ctx=x.ctx), x)
+            return x
+    return '\n'.join(ast.dump(R().visit(n)) for n in nodes)
+
+def _same_shape(nodes, template_src, extra_locals=(), what=''):
+    want = _canon(ast.parse(template_src).body, extra_locals)
+    got = _canon(nodes, extra_locals)
+    if got != want: raise Refuse(f'{what}: structure changed: ' + ' ; '.join(ast.unparse(n) for n in (nodes if isinstance(nodes, list) else [nodes]))[:200])
+
+def _slices(sub):
+    """[(lower, upper) source text] of a subscript whose index is a tuple of slices (`:` -> ('', ''))"""
+    idx = sub.slice
+    elts = idx.elts if isinstance(idx, ast.Tuple) else [idx]
+    out = []
+    for e in elts:
+        if not isinstance(e, ast.Slice) or e.step is not None: raise Refuse('slice expected: ' + ast.unparse(sub))
+        out.append((ast.unparse(e.lower) if e.lower else '', ast.unparse(e.upper) if e.upper else ''))
+    return out
+
 # ---------------------------------------------------------------------------------------------- util.pad
 def _pad_block(tr, stmts):
-    """index block of util.pad: from `dr = ...` up to (excluding) the `if array.ndim < 3` copy; `offset` (0 for 2-D
-    arrays, 1 for cubes: `if array.ndim == 3: offset = 1`) is specialised by the spec"""
-    srcs = [ast.unparse(s) for s in stmts]
+    """index block of util.pad: from `dr = ...` up to (excluding) the copy; `offset` (0 for 2-D arrays, 1 for cubes:
+    `offset = 0; if array.ndim == 3: offset = 1`) is specialised by the spec. Checked structurally: the offset rule, and that the copy
+    writes `padded[(:,) rmin1:rmax1, cmin1:cmax1] = array[(:,) rmin0:rmax0, cmin0:cmax0]` in the 2-D and the cube branch."""
     # the specialisation of `offset` is only sound if the code still sets it this way
-    pre = [i for i, s in enumerate(srcs) if s.startswith('offset = 0')]
-    if not pre or not srcs[pre[0] + 1].replace(' ', '').startswith('ifarray.ndim==3:\n') or \
-            [ast.unparse(x) for x in stmts[pre[0] + 1].body] != ['offset = 1'] or stmts[pre[0] + 1].orelse:
-        raise Refuse('pad: `offset = 0; if array.ndim == 3: offset = 1` not found')
+    ok0 = any(isinstance(x, ast.Assign) and ast.unparse(x.targets[0]) == 'offset' and ast.unparse(x.value) == '0' for x in stmts)
+    ifs = [x for x in stmts if isinstance(x, ast.If) and not x.orelse and len(x.body) == 1 and isinstance(x.body[0], ast.Assign)
+           and ast.unparse(x.body[0].targets[0]) == 'offset' and ast.unparse(x.body[0].value) == '1'
+           and ast.unparse(x.test).replace(' ', '') in ('array.ndim==3', '3==array.ndim', 'array.ndim>2', 'array.ndim>=3')]
+    if not ok0 or len(ifs) != 1: raise Refuse('pad: `offset = 0; if array.ndim == 3: offset = 1` not found')
     keep, on = [], False
-    for s, src in zip(stmts, srcs):
+    for s_ in stmts:
+        src = ast.unparse(s_)
         if src.startswith('dr ='): on = True
-        if on and isinstance(s, ast.If) and 'array.ndim' in src: break
-        if on: keep.append(s)
+        if on and isinstance(s_, ast.If) and 'array.ndim' in src: break
+        if on: keep.append(s_)
     if not keep: raise Refuse('pad: index block not found')
-    tail = stmts[len(stmts) - 2]
-    want = ('if array.ndim < 3:\n    padded = np.zeros((shape[0], shape[1]), dtype=array.dtype)\n'
-            '    padded[rmin1:rmax1, cmin1:cmax1] = array[rmin0:rmax0, cmin0:cmax0]\nelse:\n'
-            '    padded = np.zeros((array.shape[0], shape[0], shape[1]), dtype=array.dtype)\n'
-            '    padded[:, rmin1:rmax1, cmin1:cmax1] = array[:, rmin0:rmax0, cmin0:cmax0]')
-    if ast.unparse(tail) != want: raise Refuse('pad: copy statement changed: ' + ast.unparse(tail)[:200])
+    copies = [x for x in ast.walk(ast.Module(body=list(stmts), type_ignores=[])) if isinstance(x, ast.Assign) and isinstance(x.targets[0], ast.Subscript)
+              and isinstance(x.value, ast.Subscript) and ast.unparse(x.value.value) == 'array']
+    if len(copies) != 2: raise Refuse(f'pad: expected the 2-D and the cube copy, found {len(copies)} copies')
+    seen = set()
+    for cp in copies:
+        dst, src = _slices(cp.targets[0]), _slices(cp.value)
+        if ast.unparse(cp.targets[0].value) != 'padded': raise Refuse('pad: copy target changed')
+        lead = [('', '')] * (len(dst) - 2)
+        if dst != lead + [('rmin1', 'rmax1'), ('cmin1', 'cmax1')] or src != lead + [('rmin0', 'rmax0'), ('cmin0', 'cmax0')] or len(dst) not in (2, 3):
+            raise Refuse('pad: copy statement changed: ' + ast.unparse(cp))
+        seen.add(len(dst))
+    if seen != {2, 3}: raise Refuse('pad: need one 2-D and one cube copy')
     def final(env):
         for k in ('rmin0', 'rmax0', 'cmin0', 'cmax0', 'rmin1', 'rmax1', 'cmin1', 'cmax1'):
             if k not in env: raise Refuse(f'pad: {k} not assigned')
@@ -33,18 +76,22 @@ def _pad_block(tr, stmts):
 
 # ---------------------------------------------------------------------------------------------- util.subarray
 def _subarray_ret(tr, st, env):
-    if ast.unparse(st.value) != 'a[rmin:rmax, cmin:cmax]': raise Refuse('subarray: return expression changed')
+    if not (isinstance(st.value, ast.Subscript) and ast.unparse(st.value.value) == 'a' and _slices(st.value) == [('rmin', 'rmax'), ('cmin', 'cmax')]):
+        raise Refuse('subarray: return expression changed')
     return V([env['rmin'], env['rmax'], env['cmin'], env['cmax']])
 
 # ---------------------------------------------------------------------------------------------- helper.boundary_slice
 def _bslice_block(tr, stmts):
     srcs = [ast.unparse(s) for s in stmts]
-    start = [i for i, s in enumerate(srcs) if s.startswith('rmin, rmax, cmin, cmax = lentil.boundary(x, threshold)')]
+    start = [i for i, s in enumerate(srcs) if s.replace(' ', '').startswith('rmin,rmax,cmin,cmax=lentil.boundary(x,threshold)')]
     if not start: raise Refuse('boundary_slice: call to lentil.boundary not found')
     return stmts[start[0]:], None
 
 def _bslice_ret(tr, st, env):
-    if ast.unparse(st.value) != 'np.s_[rmin:rmax, cmin:cmax]': raise Refuse('boundary_slice: return expression changed')
+    v = st.value
+    ok = (isinstance(v, ast.Subscript) and ast.unparse(v.value) == 'np.s_' and _slices(v) == [('rmin', 'rmax'), ('cmin', 'cmax')]) or \
+         (isinstance(v, ast.Tuple) and [ast.unparse(e).replace(' ', '') for e in v.elts] == ['slice(rmin,rmax)', 'slice(cmin,cmax)'])
+    if not ok: raise Refuse('boundary_slice: return expression changed')
     return V([V([env['rmin'], env['rmax']]), V([env['cmin'], env['cmax']])])
 
 UTIL = {
@@ -85,8 +132,8 @@ def _hex_generator(repo):
         table.append(tuple(vals))
     def body_src(name, want):
         if name not in fns: raise Refuse(f'{name} not found')
-        got = '\n'.join(ast.unparse(s) for s in fns[name].body if not (isinstance(s, ast.Expr) and isinstance(s.value, ast.Constant)))
-        if got != want: raise Refuse(f'{name}: body changed: {got[:200]}')
+        body = [s for s in fns[name].body if not (isinstance(s, ast.Expr) and isinstance(s.value, ast.Constant))]
+        _same_shape(body, want, [a.arg for a in fns[name].args.args], name)
     body_src('hex_add', 'return Hex(a.q + b.q, a.r + b.r, a.s + b.s)')
     body_src('hex_direction', 'return hex_directions[direction]')
     body_src('hex_neighbor', 'return hex_add(hex, hex_direction(direction))')
@@ -94,15 +141,16 @@ def _hex_generator(repo):
     ring = fns.get('hex_ring')
     if ring is None: raise Refuse('hex_ring not found')
     st = [s for s in ring.body if not (isinstance(s, ast.Expr) and isinstance(s.value, ast.Constant))]
-    if len(st) != 4 or ast.unparse(st[0]) != 'results = []' or ast.unparse(st[3]) != 'return results':
-        raise Refuse('hex_ring: shape changed')
-    loop = ast.unparse(st[2])
-    if loop != 'for i in range(6):\n    for j in range(radius):\n        results.append(hex)\n        hex = hex_neighbor(hex, i)':
-        raise Refuse('hex_ring: loop changed: ' + loop[:200])
+    if len(st) != 4: raise Refuse('hex_ring: shape changed')
     s0 = st[1]
-    if not (isinstance(s0, ast.Assign) and ast.unparse(s0.targets[0]) == 'hex' and isinstance(s0.value, ast.Call)
+    if not (isinstance(s0, ast.Assign) and isinstance(s0.targets[0], ast.Name) and isinstance(s0.value, ast.Call)
             and ast.unparse(s0.value.func) == 'Hex' and len(s0.value.args) == 3):
         raise Refuse('hex_ring: start cell changed')
+    # everything but the start cell's components is compared structurally (local names, formatting and comments are free)
+    import copy
+    st2 = copy.deepcopy(st); st2[1].value.args = [ast.Constant(0), ast.Constant(0), ast.Constant(0)]
+    _same_shape(st2, 'results = []\nhex = Hex(0, 0, 0)\nfor i in range(6):\n    for j in range(radius):\n        results.append(hex)\n'
+                     '        hex = hex_neighbor(hex, i)\nreturn results', ['radius'], 'hex_ring')
     def lin(e):
         u = ast.unparse(e)
         if u == 'radius': return 'radius'
@@ -113,11 +161,17 @@ def _hex_generator(repo):
     # segment numbering of hex_segments: centre is 0 (kept iff `0 not in drop`), then seg = 1, 2, ... along the rings
     seg = fns.get('hex_segments')
     if seg is None: raise Refuse('hex_segments not found')
-    segsrc = ast.unparse(seg)
-    for needle in ('if 0 not in drop:\n        mask.append(lentil.hexagon(shape, seg_radius, shift=(0, 0), antialias=antialias, rotate=rotate))',
-                   'seg = 1\n    for ring in range(1, rings + 1):\n        for h in hex_ring(ring):\n            r, c = hex_to_rc(h, seg_radius + seg_gap / 2, rotate)\n'
-                   '            if seg not in drop:\n                mask.append(lentil.hexagon(shape, seg_radius, shift=(r, c), antialias=antialias, rotate=rotate))\n            seg += 1'):
-        if needle not in segsrc: raise Refuse('hex_segments: segment loop changed')
+    params = [a.arg for a in seg.args.args]
+    body = [x for x in seg.body if not (isinstance(x, ast.Expr) and isinstance(x.value, ast.Constant))]
+    centre = [x for x in body if isinstance(x, ast.If) and 'drop' in ast.unparse(x.test)]
+    loops = [i for i, x in enumerate(body) if isinstance(x, ast.For)]
+    if len(centre) != 1 or len(loops) != 1 or loops[0] == 0: raise Refuse('hex_segments: segment loop changed')
+    _same_shape(centre, 'if 0 not in drop:\n    mask.append(lentil.hexagon(shape, seg_radius, shift=(0, 0), antialias=antialias, rotate=rotate))',
+                params + ['mask', 'shape'], 'hex_segments centre segment')
+    _same_shape(body[loops[0] - 1:loops[0] + 1],
+                'seg = 1\nfor ring in range(1, rings + 1):\n    for h in hex_ring(ring):\n        r, c = hex_to_rc(h, seg_radius + seg_gap / 2, rotate)\n'
+                '        if seg not in drop:\n            mask.append(lentil.hexagon(shape, seg_radius, shift=(r, c), antialias=antialias, rotate=rotate))\n        seg += 1',
+                params + ['mask', 'shape'], 'hex_segments numbering loop')
     lean = ('/-- `segmented.hex_directions` -/\n'
             'def hexDirections : List (Int × Int × Int) :=\n  [' + ', '.join(f'({a}, {b}, {c})' for a, b, c in table) + ']\n\n'
             '/-- start cell of `segmented.hex_ring(radius)` -/\n'
